@@ -170,7 +170,9 @@ class Setup:
         self.vary = [xd.Vary(nm, self.cont, limits=spec["limits"][i], step=spec["step"], max_step=spec["max_step"][i],
                              weight=wv[i], tag="v%d" % i) for i, nm in enumerate(self.names)]
         self.cont.vary = {v.name: v for v in self.vary}
-        self.targets = [self.act.target(i, float(v), tol=spec["tol"][i], weight=wt[i], tag="t%d" % i)
+        optlog = spec.get("optlog") or [False] * spec["m"]
+        self.targets = [self.act.target(i, float(v), tol=spec["tol"][i], weight=wt[i], tag="t%d" % i,
+                                        **({"optimize_log": True} if optlog[i] else {}))
                         for i, v in enumerate(spec["tars"])]
         self.opt = xd.Optimize(self.vary, self.targets, n_steps_max=spec["n_steps_max"], show_call_counter=False,
                                check_limits=spec.get("check_limits", True))
